@@ -29,7 +29,8 @@ CONSTANTS N,      \* length bound of the list in focus
 
 \* 6698 = 0x1a2a and 2586 = 0x0a1a look like GREASE nibble-wise (0x?a?a) but are not: they count and are hashed
 CipherSyms == {2570, 64250, 4865, 4866, 49199, 6698}
-ExtSyms    == {2570, 64250, 0, 16, 10, 13, 43, 21, 65281, 39321}
+\* 50 = signature_algorithms_cert: an ordinary extension for JA4 (counted, hashed by type); its scheme list is NOT the signature algorithm list
+ExtSyms    == {2570, 64250, 0, 16, 10, 13, 43, 21, 65281, 39321, 50}
 SigSyms    == {2570, 1027, 2052, 1025, 2586}
 SVSyms     == {2570, 772, 771, 770, 6698}
 G1 == 2570
